@@ -107,6 +107,7 @@ type World struct {
 	failTokenGets int
 	failTokenPuts int
 	failTokenErr  error
+	mounts        []string // every path prefix a server mounted on its RPC router (seen through the instrumenter)
 }
 
 type Srv struct {
@@ -361,6 +362,12 @@ func Run(t *testing.T, prop string, seed uint64, tier string, replay *hcommon.Re
 			w.certs = &scriptedCerts{w: w, calls: map[string]int{}, issued: map[string]*tls.Certificate{}, validFor: time.Hour}
 			w.ctx, w.cancel = context.WithCancel(context.Background())
 			defer w.cancel()
+			simrt.ObserveHook = func(name string, args []any, _ any) {
+				if p, ok := args[0].(string); ok && name == "Mount" {
+					w.mounts = append(w.mounts, p)
+				}
+			}
+			defer func() { simrt.ObserveHook = nil }()
 			if prop == "C42" {
 				w.checkC42()
 				return
@@ -483,6 +490,47 @@ func (w *World) checkC25() {
 				w.res.Violate("C25", "unauthenticated-call-served/"+c.Kind+"/"+m, "%s was served for a caller of kind %q (no verified, registered client identity)", m, c.Kind)
 			} else {
 				refused++
+			}
+		}
+	}
+	// every other entry point: the services mounted under any further path prefix refuse the same callers
+	bases := map[string]bool{}
+	for _, m := range w.mounts {
+		if i := strings.Index(m, "/protocol."); i >= 0 {
+			bases[m[:i]] = true
+		}
+	}
+	if !bases["/twirp"] {
+		w.res.Violate("C25", "harness/mounts-not-observed", "the default RPC mount was not observed (mounts %v): the enumeration of entry points is broken", w.mounts)
+	}
+	for _, base := range simrt.MapKeys(bases) {
+		if base == "/twirp" {
+			continue
+		}
+		simrt.Probe("c25-extra-mount")
+		for _, c := range w.clients {
+			if c.Kind == "registered" {
+				continue
+			}
+			alt := rpc.VerifTunnelClientWithPrefix(rpc.DisablePooling(w.ctx), c.T, base)
+			for _, m := range methods {
+				if m == "Ping" || m == "RegisterIdentity" {
+					continue
+				}
+				mv := reflect.ValueOf(alt).MethodByName(m)
+				req := reflect.New(mv.Type().In(1).Elem())
+				if f := req.Elem().FieldByName("Hostname"); f.IsValid() && f.Kind() == reflect.String {
+					f.SetString(host)
+				}
+				simrt.Sleep(150*time.Millisecond, "h:pace")
+				ctx, cancel := context.WithTimeout(rpc.WithNode(w.ctx, w.servers[0].TunT.Identity()), 30*time.Second)
+				out := mv.Call([]reflect.Value{reflect.ValueOf(ctx), req})
+				cancel()
+				if out[1].IsNil() {
+					w.res.Violate("C25", "unauthenticated-call-served/"+c.Kind+"/"+m, "%s was served under the path prefix %q for a caller of kind %q (no verified, registered client identity)", m, base, c.Kind)
+				} else {
+					refused++
+				}
 			}
 		}
 	}
